@@ -19,6 +19,10 @@ RULE = (
     "in the same residue (6 deg for the ASH/GLH acid proton), X not within 0.5 A of another atom of "
     "its residue; water O-H and H-O-H as the template.  Non-trivial = >= 1 rebuilt heavy atom, or "
     ">= 1 optimisable polar hydrogen / water hydrogen placed, or a debump rotation happened."
+    ' tiptable / nettable: the exhaustive tip-clash table and the directed hydrogen-bond network '
+    'table (waters or a free SG with 2-3 donors, five-water clusters).  e2e also: stretched / '
+    'broken peptide links with the O or C before the break missing (C: known finding), titration '
+    'route (every hydrogen counts as added there), neutral termini.'
 )
 ASSUMPTIONS = [
     "template geometry in the XML data defines the reference bond lengths and angles",
